@@ -254,6 +254,12 @@ def _behavioural_kernel(case, gd):
         preds = 25.0 * x[:, None] + 0.01 * r.normal(size=(n, E))
     d = d + d.T
     np.fill_diagonal(d, 0)
+    if case["seed"] % 3 == 0 and n >= 4:
+        # two posterior samples that predict alike on the reference experiments (distance exactly 0, equal distance rows) yet differently
+        # on this plate: both are samples, every triple containing either of them counts
+        d[1, :] = d[0, :]
+        d[:, 1] = d[:, 0]
+        d[0, 1] = d[1, 0] = d[1, 1] = 0.0
     c = math.comb(n, 3)
     kw = {} if df == 1.0 else {"distance_factor": df}
     if case["kind"] == "kernel_all_many":
